@@ -52,3 +52,227 @@ ssize_t getrandom(void *buf, size_t len, unsigned int flags) {
     }
     return syscall(SYS_getrandom, buf, len, flags);
 }
+
+/* ------------------------------------------------------------------ file-system recorder
+ *
+ * Active when VERIF_FS_ROOT is set (e.g. "/dev/shm/verif-"). Every successful mutation of a path
+ *   <root><name>/...   whose <name> contains the substring "rec"
+ * is appended, as one text line, to the log file  <root><name>.fslog .
+ *
+ *   C <path>                       directory entry created (open O_CREAT on a missing file)
+ *   T <path>                       existing file truncated by open(O_TRUNC)
+ *   W <path> <offset> <len> <hex>  data written
+ *   U <path> <len>                 ftruncate
+ *   S <path>                       fsync / fdatasync of a file
+ *   D <path>                       fsync of a directory
+ *   R <old> <new>                  rename
+ *   X <path>                       unlink
+ *   M <path>                       mkdir
+ *   Y <path>                       rmdir
+ *   K <text>                       marker written by the harness (verif_fs_mark)
+ * Paths never contain spaces in this harness.
+ */
+
+static const char *fs_root(void) {
+    static int init = 0;
+    static const char *root = NULL;
+    if (!init) { root = getenv("VERIF_FS_ROOT"); init = 1; }
+    return root;
+}
+
+/* returns 1 and fills logpath if `path` is under a recorded scratch directory */
+static int recorded(const char *path, char *logpath, size_t n) {
+    const char *root = fs_root();
+    if (!root || !path) return 0;
+    size_t rl = strlen(root);
+    if (strncmp(path, root, rl) != 0) return 0;
+    const char *name = path + rl;
+    const char *slash = strchr(name, '/');
+    size_t nl = slash ? (size_t)(slash - name) : strlen(name);
+    if (nl == 0 || nl > 200) return 0;
+    char nm[256]; memcpy(nm, name, nl); nm[nl] = 0;
+    if (!strstr(nm, "rec")) return 0;
+    if (strlen(nm) > 6 && strcmp(nm + strlen(nm) - 6, ".fslog") == 0) return 0;
+    snprintf(logpath, n, "%s%s.fslog", root, nm);
+    return 1;
+}
+
+static void log_line(const char *logpath, const char *line, size_t len) {
+    int fd = (int)syscall(SYS_openat, AT_FDCWD, logpath, O_WRONLY | O_CREAT | O_APPEND | O_CLOEXEC, 0644);
+    if (fd < 0) return;
+    size_t off = 0;
+    while (off < len) {
+        long w = syscall(SYS_write, fd, line + off, len - off);
+        if (w <= 0) break;
+        off += (size_t)w;
+    }
+    syscall(SYS_close, fd);
+}
+
+static void log_fmt(const char *path_for_scope, const char *fmt, ...) {
+    char lp[512];
+    if (!recorded(path_for_scope, lp, sizeof lp)) return;
+    char buf[2048];
+    va_list ap; va_start(ap, fmt);
+    int n = vsnprintf(buf, sizeof buf, fmt, ap);
+    va_end(ap);
+    if (n > 0) log_line(lp, buf, (size_t)(n < (int)sizeof buf ? n : (int)sizeof buf - 1));
+}
+
+void verif_fs_mark(const char *scratch_path, const char *text) {
+    log_fmt(scratch_path, "K %s\n", text);
+}
+
+/* absolute path of (dirfd, path) */
+static int abs_path(int dirfd, const char *path, char *out, size_t n) {
+    if (!path) return 0;
+    if (path[0] == '/') { snprintf(out, n, "%s", path); return 1; }
+    char base[PATH_MAX];
+    if (dirfd == AT_FDCWD) {
+        if (!getcwd(base, sizeof base)) return 0;
+    } else {
+        char link[64]; snprintf(link, sizeof link, "/proc/self/fd/%d", dirfd);
+        ssize_t l = readlink(link, base, sizeof base - 1);
+        if (l <= 0) return 0;
+        base[l] = 0;
+    }
+    snprintf(out, n, "%s/%s", base, path);
+    return 1;
+}
+static int fd_path(int fd, char *out, size_t n) {
+    char link[64]; snprintf(link, sizeof link, "/proc/self/fd/%d", fd);
+    ssize_t l = readlink(link, out, n - 1);
+    if (l <= 0) return 0;
+    out[l] = 0;
+    if (l > 10 && strcmp(out + l - 10, " (deleted)") == 0) return 0;
+    return out[0] == '/';
+}
+
+#define REAL(name) static __typeof__(name) *real_##name = NULL; if (!real_##name) real_##name = dlsym(RTLD_NEXT, #name)
+
+static int do_open(int dirfd, const char *path, int flags, mode_t mode, int use64) {
+    (void)use64;
+    char ap[PATH_MAX]; char lp[512];
+    int rec = fs_root() && abs_path(dirfd, path, ap, sizeof ap) && recorded(ap, lp, sizeof lp);
+    int existed = 0;
+    if (rec && (flags & (O_CREAT | O_TRUNC))) {
+        struct stat st; existed = (syscall(SYS_newfstatat, AT_FDCWD, ap, &st, 0) == 0);
+    }
+    int fd = (int)syscall(SYS_openat, dirfd, path, flags | O_LARGEFILE, mode);
+    if (fd < 0) { errno = -fd > 0 ? errno : errno; return fd; }
+    if (rec) {
+        if ((flags & O_CREAT) && !existed) log_fmt(ap, "C %s\n", ap);
+        else if ((flags & O_TRUNC) && existed && (flags & (O_WRONLY | O_RDWR))) log_fmt(ap, "T %s\n", ap);
+    }
+    return fd;
+}
+
+int open(const char *path, int flags, ...) { mode_t m = 0; if (flags & (O_CREAT | O_TMPFILE)) { va_list a; va_start(a, flags); m = va_arg(a, mode_t); va_end(a);} return do_open(AT_FDCWD, path, flags, m, 0); }
+int open64(const char *path, int flags, ...) { mode_t m = 0; if (flags & (O_CREAT | O_TMPFILE)) { va_list a; va_start(a, flags); m = va_arg(a, mode_t); va_end(a);} return do_open(AT_FDCWD, path, flags, m, 1); }
+int openat(int dirfd, const char *path, int flags, ...) { mode_t m = 0; if (flags & (O_CREAT | O_TMPFILE)) { va_list a; va_start(a, flags); m = va_arg(a, mode_t); va_end(a);} return do_open(dirfd, path, flags, m, 0); }
+int openat64(int dirfd, const char *path, int flags, ...) { mode_t m = 0; if (flags & (O_CREAT | O_TMPFILE)) { va_list a; va_start(a, flags); m = va_arg(a, mode_t); va_end(a);} return do_open(dirfd, path, flags, m, 1); }
+int creat(const char *path, mode_t mode) { return do_open(AT_FDCWD, path, O_CREAT | O_WRONLY | O_TRUNC, mode, 0); }
+int creat64(const char *path, mode_t mode) { return do_open(AT_FDCWD, path, O_CREAT | O_WRONLY | O_TRUNC, mode, 1); }
+
+static void log_write(int fd, const void *buf, size_t len, off_t offset) {
+    char p[PATH_MAX]; char lp[512];
+    if (!fs_root() || !fd_path(fd, p, sizeof p) || !recorded(p, lp, sizeof lp)) return;
+    size_t cap = strlen(p) + 64 + 2 * len + 2;
+    char *line = malloc(cap);
+    if (!line) return;
+    int n = snprintf(line, cap, "W %s %lld %zu ", p, (long long)offset, len);
+    static const char hx[] = "0123456789abcdef";
+    const unsigned char *b = buf;
+    for (size_t i = 0; i < len; i++) { line[n++] = hx[b[i] >> 4]; line[n++] = hx[b[i] & 15]; }
+    line[n++] = '\n';
+    log_line(lp, line, (size_t)n);
+    free(line);
+}
+
+ssize_t write(int fd, const void *buf, size_t count) {
+    ssize_t r = syscall(SYS_write, fd, buf, count);
+    if (r > 0 && fs_root()) {
+        off_t end = (off_t)syscall(SYS_lseek, fd, 0, SEEK_CUR);
+        if (end >= r) log_write(fd, buf, (size_t)r, end - r);
+    }
+    return r;
+}
+ssize_t pwrite(int fd, const void *buf, size_t count, off_t offset) {
+    ssize_t r = syscall(SYS_pwrite64, fd, buf, count, offset);
+    if (r > 0 && fs_root()) log_write(fd, buf, (size_t)r, offset);
+    return r;
+}
+ssize_t pwrite64(int fd, const void *buf, size_t count, off_t offset) {
+    ssize_t r = syscall(SYS_pwrite64, fd, buf, count, offset);
+    if (r > 0 && fs_root()) log_write(fd, buf, (size_t)r, offset);
+    return r;
+}
+ssize_t writev(int fd, const struct iovec *iov, int iovcnt) {
+    ssize_t r = syscall(SYS_writev, fd, iov, iovcnt);
+    if (r > 0 && fs_root()) {
+        off_t end = (off_t)syscall(SYS_lseek, fd, 0, SEEK_CUR);
+        if (end >= r) {
+            char *tmp = malloc((size_t)r); size_t k = 0;
+            if (tmp) {
+                for (int i = 0; i < iovcnt && k < (size_t)r; i++) { size_t c = iov[i].iov_len; if (c > (size_t)r - k) c = (size_t)r - k; memcpy(tmp + k, iov[i].iov_base, c); k += c; }
+                log_write(fd, tmp, k, end - r);
+                free(tmp);
+            }
+        }
+    }
+    return r;
+}
+static int do_ftruncate(int fd, off_t len) {
+    int r = (int)syscall(SYS_ftruncate, fd, len);
+    if (r == 0 && fs_root()) { char p[PATH_MAX]; if (fd_path(fd, p, sizeof p)) log_fmt(p, "U %s %lld\n", p, (long long)len); }
+    return r;
+}
+int ftruncate(int fd, off_t len) { return do_ftruncate(fd, len); }
+int ftruncate64(int fd, off_t len) { return do_ftruncate(fd, len); }
+
+static int do_sync(int fd, long nr) {
+    int r = (int)syscall(nr, fd);
+    if (r == 0 && fs_root()) {
+        char p[PATH_MAX];
+        if (fd_path(fd, p, sizeof p)) {
+            struct stat st;
+            int isdir = (syscall(SYS_fstat, fd, &st) == 0) && S_ISDIR(st.st_mode);
+            log_fmt(p, "%c %s\n", isdir ? 'D' : 'S', p);
+        }
+    }
+    return r;
+}
+int fsync(int fd) { return do_sync(fd, SYS_fsync); }
+int fdatasync(int fd) { return do_sync(fd, SYS_fdatasync); }
+
+static int do_rename(int od, const char *o, int nd, const char *n, unsigned flags) {
+    char ao[PATH_MAX], an[PATH_MAX];
+    int ok = fs_root() && abs_path(od, o, ao, sizeof ao) && abs_path(nd, n, an, sizeof an);
+    int r = (int)syscall(SYS_renameat2, od, o, nd, n, flags);
+    if (r == 0 && ok) log_fmt(an, "R %s %s\n", ao, an);
+    return r;
+}
+int rename(const char *o, const char *n) { return do_rename(AT_FDCWD, o, AT_FDCWD, n, 0); }
+int renameat(int od, const char *o, int nd, const char *n) { return do_rename(od, o, nd, n, 0); }
+int renameat2(int od, const char *o, int nd, const char *n, unsigned flags) { return do_rename(od, o, nd, n, flags); }
+
+static int do_unlinkat(int dirfd, const char *path, int flags) {
+    char ap[PATH_MAX];
+    int ok = fs_root() && abs_path(dirfd, path, ap, sizeof ap);
+    int r = (int)syscall(SYS_unlinkat, dirfd, path, flags);
+    if (r == 0 && ok) log_fmt(ap, "%c %s\n", (flags & AT_REMOVEDIR) ? 'Y' : 'X', ap);
+    return r;
+}
+int unlink(const char *path) { return do_unlinkat(AT_FDCWD, path, 0); }
+int unlinkat(int dirfd, const char *path, int flags) { return do_unlinkat(dirfd, path, flags); }
+int rmdir(const char *path) { return do_unlinkat(AT_FDCWD, path, AT_REMOVEDIR); }
+
+static int do_mkdirat(int dirfd, const char *path, mode_t mode) {
+    char ap[PATH_MAX];
+    int ok = fs_root() && abs_path(dirfd, path, ap, sizeof ap);
+    int r = (int)syscall(SYS_mkdirat, dirfd, path, mode);
+    if (r == 0 && ok) log_fmt(ap, "M %s\n", ap);
+    return r;
+}
+int mkdir(const char *path, mode_t mode) { return do_mkdirat(AT_FDCWD, path, mode); }
+int mkdirat(int dirfd, const char *path, mode_t mode) { return do_mkdirat(dirfd, path, mode); }
